@@ -157,3 +157,39 @@ def fresh_default_insts(ctx, rid: str) -> List[R.Inst]:
         else:
             out.append(R.ok(rid, key, file, cls.node.lineno, idiom="default_factory constructs every list per instance"))
     return out
+
+
+def forwarding_insts(ctx, rid: str, wrapper: str, callee_names) -> List[R.Inst]:
+    """A thin wrapper must hand every option it accepts to the function that does the work: each parameter of the
+    wrapper that the resolved callee also declares has to appear in the call (by keyword or position)."""
+    from ..model import params_of, walk_no_nested
+    M = ctx.M
+    fn = M.fn(wrapper)
+    file = M.mods[fn.mod].rel
+    out = []
+    own = {"self", "cls"} | ({fn.cls.rsplit(".", 1)[1]} if fn.cls else set())
+    calls = [n for n in walk_no_nested(fn.node) if isinstance(n, ast.Call) and call_name(n) in callee_names and
+             isinstance(n.func, ast.Attribute) and isinstance(n.func.value, ast.Name) and n.func.value.id in own | {"bms", "m", "ms"}]
+    key = f"{short(wrapper)}->{'/'.join(callee_names)}"
+    if not calls:
+        return [R.undec(rid, key, file, fn.node.lineno, f"call to {callee_names} not found")]
+    c = calls[0]
+    # resolve the callee in the wrapper's class
+    callee = M.method(fn.cls, call_name(c)) if fn.cls else None
+    if callee is None:
+        return [R.undec(rid, key, file, c.lineno, "callee not resolved")]
+    cps = [p for p in params_of(M.fn(callee).node) if p not in ("self", "cls")]
+    wps = [p for p in params_of(fn.node) if p not in ("self", "cls")]
+    shared = [p for p in wps if p in cps]
+    passed = {k.arg for k in c.keywords if isinstance(k.value, ast.Name) and k.value.id == k.arg}
+    passed |= {a.id for a in c.args if isinstance(a, ast.Name)}
+    star = any(k.arg is None for k in c.keywords)
+    missing = [p for p in shared if p not in passed]
+    if missing and not star:
+        out.append(R.viol(rid, key, file, c.lineno,
+                          f"{fn.name}() accepts {missing} but does not pass {'it' if len(missing) == 1 else 'them'} on to "
+                          f"{call_name(c)}(): the option is silently ignored and the default is used",
+                          construct=f"{fn.name} drops {missing}: {unparse(c)[:100]}"))
+    else:
+        out.append(R.ok(rid, key, file, c.lineno, idiom=f"forwards {shared or 'nothing (no shared options)'}"))
+    return out
